@@ -21,7 +21,7 @@ from lx.lifted import LiftedScript, dump_runner, set_eq
 from lx.tree import Names
 
 PID = "C13"
-BOUNDS = ("17 hand-written statement templates over schema-qualified tables (s.t1, s.t2, s.w) + a seeded share of the corpus under an "
+BOUNDS = ("18 hand-written statement templates over schema-qualified tables (s.t1, s.t2, s.w) + a seeded share of the corpus under an "
           "unrelated provider; metadata column names free (2 characters over the identifier alphabet; thorough: 1-3), 1-3 columns "
           "per table, a free known/unknown bit per table; provider = DummyMetaDataProvider (dict-backed)")
 STUBS = ["sqllineage.runner.split / SqlFluffLineageAnalyzer._list_specific_statement_segment (parser boundary)"]
@@ -273,6 +273,39 @@ def b_insert_explicit_union(self, n):
     return meta, exp, exp
 
 
+def b_star_into_known_target(self, n):
+    """SELECT * over a known table into a target whose columns are known too: expanded AND paired by position"""
+    k1, k2, k3, k4 = K("k1", self.length), K("k2", self.length), K("k3", self.length), K("k4", self.length)
+    distinct(k1, k2)
+    distinct(k3, k4)
+    kn1, knw = fork_bool("known_t1"), fork_bool("known_w")
+    meta = {}
+    if kn1:
+        meta[T1] = [k1, k2]
+    if knw:
+        meta[W] = [k3, k4]
+    if not meta:
+        meta = {"s.other": [k1]}
+    if kn1 and knw:
+        exp = [(C(T1, low(k1)), C(W, low(k3))), (C(T1, low(k2)), C(W, low(k4)))]
+    elif kn1:
+        exp = [(C(T1, low(k1)), C(W, low(k1))), (C(T1, low(k2)), C(W, low(k2)))]
+    else:
+        exp = [(C(T1, "*"), C(W, "*"))]
+    return meta, exp, [(C(T1, "*"), C(W, "*"))]
+
+
+def b_star_into_known_target_classify(self, names, meta, got, exp):
+    # recorded finding: source and target both known -> the wildcard is expanded by NAME, not by position, and columns the
+    # target already lists are dropped: every reported pair is (t1.k -> w.k) for a column k of t1, some or all are missing
+    if T1 in meta and W in meta:
+        byname = [(C(T1, low(k)), C(W, low(k))) for k in meta[T1]]
+        has = lambda pairs, a, b: any(bool(x == a) and bool(y == b) for x, y in pairs)
+        if all(has(byname, a, b) for a, b in got.pairs):
+            return "C13-star-into-known-target-paired-by-name"
+    return None
+
+
 def b_unknown_everything(self, n):
     k1 = K("k1", self.length)
     e = [(C(T1, "ca"), C(W, "ca")), (C(T2, "cb"), C(W, "cb")), ("cc", C(W, "cc"))]
@@ -301,6 +334,7 @@ TEMPLATES = {
     "unqualified_in_join": ("INSERT INTO s.w SELECT zqkx FROM s.t1 AS a JOIN s.t2 AS b ON a.id = b.id", b_unqualified, None),
     "unqualified_free_tables": ("INSERT INTO s.w SELECT zqkx FROM zqs1.zqt1 AS a JOIN zqs2.zqt2 AS b ON a.id = b.id", b_unqualified_free_tables, None),
     "unqualified_comma_join": ("INSERT INTO s.w SELECT zqkx FROM s.t1, s.t2", b_unqualified, None),
+    "star_into_known_target": ("INSERT INTO s.w SELECT * FROM s.t1", b_star_into_known_target, b_star_into_known_target_classify),
     "insert_positions": ("INSERT INTO s.w SELECT ca, cb FROM s.t1", b_insert_positions, None),
     "insert_explicit_list": ("INSERT INTO s.w (zqkx, zqky) SELECT ca, cb FROM s.t1", b_insert_explicit_list, None),
     "insert_explicit_shorter": ("INSERT INTO s.w (zqkx) SELECT ca FROM s.t1", b_insert_explicit_shorter, None),
